@@ -155,14 +155,28 @@ PLANS['C16'] = dict(
     groups=[
         G('mu_mix', 'c-plain', 'B', 8, 2000, params=dict(debug=1), **MU),
         G('mu_mix', 'c-plain', 'A', 4, 1500, params=dict(debug=1), thorough=40000, **MU),
+        G('debug_buf', 'c-asan', 'B', 2, 100, thorough=3000),
+        G('debug_buf', 'c-asan', 'A', 1, 50, thorough=1000),
+        G('debug_buf', 'cpp-asan', 'B', 1, 50, thorough=1000),
     ],
+    assumptions=['condition variables that are debug-printed only carry nsync_cv_wait* waiters (nsync_cv_debug_state_and_waiters treats every queued record as a full waiter struct)'],
 )
 PLANS['C13'] = dict(
-    rule=RULE_B + RULE_A + 'non-trivial = at least one wait slept.',
+    rule=RULE_B + RULE_A + 'all builds are ASan (detect_stack_use_after_return=1, freed memory quarantined); non-trivial = a wait or the final acquisition of the execution slept.',
     groups=[
-        G('mu_mix', 'c-asan', 'B', 8, 1500, **MU),
-        G('mu_mix', 'c-asan', 'A', 8, 1000, thorough=20000, **MU),
+        G('refcount', 'c-asan', 'B', 6, 3000, owners=lambda w, h: sanitizer_owners(w, h) | ({'C13'} if w.get('oracle') in ('asan', 'crash') else set()) if w.get('oracle') in ('asan', 'ubsan', 'tsan', 'crash') else mu_mix_owners(w, h)),
+        G('refcount', 'c-asan', 'A', 2, 3000, thorough=60000, owners=lambda w, h: sanitizer_owners(w, h) | ({'C13'} if w.get('oracle') in ('asan', 'crash') else set()) if w.get('oracle') in ('asan', 'ubsan', 'tsan', 'crash') else mu_mix_owners(w, h)),
+        G('waitn', 'c-asan', 'B', 3, 2000, owners=None),
+        G('cv_tokens', 'c-asan', 'B', 2, 2000, owners=None),
+        G('mu_mix', 'c-asan', 'B', 3, 1500, owners=None),
+        G('mu_mix', 'c-asan', 'A', 2, 1000, thorough=20000, owners=None),
+        G('notes', 'c-asan', 'B', 2, 2000, owners=None),
+        G('counter', 'c-asan', 'B', 3, 3000, owners=None),
+        G('counter', 'c-asan', 'A', 1, 1500, thorough=30000, owners=None),
+        G('refcount', 'cpp-asan', 'B', 4, 20000, tier='thorough', thorough=20000, owners=None),
     ],
+    assumptions=['a clean ASan run is not memory safety: intra-object and far out-of-bounds accesses are invisible, the quarantine only approximates "never reused"',
+                 'references to the object holding the mutex are dropped under the write lock only (a reader cannot know it is the last user)'],
 )
 
 
@@ -403,6 +417,38 @@ PLANS['C03'] = dict(
                  'the Mode B runtime is not instrumented and hands the token over with relaxed atomics and raw futex calls: it contributes no happens-before edge',
                  'nothing is claimed for ATM_* sites the workloads did not reach (listed under atm_sites_not_hit)'],
 )
+
+
+PLANS['C05'] = dict(
+    rule=RULE_B + RULE_A + 'non-trivial = at least one timed or cancellable wait of the execution slept (its deadline / note / wake-up raced).',
+    groups=[
+        G('mu_mix', 'c-plain', 'B', 8, 3000, **MU),
+        G('cond_rounds', 'c-plain', 'B', 4, 3000, **MU),
+        G('cv_tokens', 'c-plain', 'B', 2, 2000, owners=cv_owners),
+        G('mu_mix', 'c-plain', 'A', 2, 1500, thorough=40000, **MU),
+        G('mu_mix', 'cpp-plain', 'B', 4, 20000, tier='thorough', thorough=20000, **MU),
+    ],
+)
+
+
+def c13_owners(w, home):
+    o = w.get('oracle', '')
+    if o in ('asan', 'ubsan', 'tsan'):
+        return sanitizer_owners(w, home)
+    if o == 'crash':
+        return {home}
+    sc = w.get('scenario', '')
+    if sc == 'waitn':
+        return waitn_owners(w, home)
+    if sc == 'cv_tokens':
+        return cv_owners(w, home)
+    if sc == 'notes':
+        return notes_owners(w, home)
+    return mu_mix_owners(w, home)
+
+
+for _g in PLANS['C13']['groups']:
+    _g['owners'] = c13_owners
 
 
 def expand(prop, tier, scale=1.0):
